@@ -1453,6 +1453,8 @@ class Tr:
                 if isinstance(f.value, ast.Name) and f.attr == "append" and f.value.id in env and len(v.args) == 1:
                     nm = f.value.id
                     ty = env[nm]
+                    if ty == "bytes" or (isinstance(ty, tuple) and ty[0] == "list"):
+                        self.check_unshared_local(s, nm)
                     if ty == "bytes":
                         b, t, aty = self.E(v.args[0], env, "int")
                         return self.with_bindings(b, self.bind(f"append_byte {nm} ({t})", nm, cont(env)))
@@ -1974,6 +1976,8 @@ class Tr:
             t = env.get(v)
             if not (isinstance(t, tuple) and t[0] == "list") or v == x:
                 return None
+        for v in lists:
+            self.check_unshared_local(s, v)
         mentioned = {n.id for part in (s.iter, iff.test) for n in ast.walk(part) if isinstance(n, ast.Name)}
         if mentioned & set(lists) or x in {n.id for n in ast.walk(s.iter) if isinstance(n, ast.Name)}:
             return None
@@ -2044,6 +2048,47 @@ class Tr:
             if isinstance(p, (ast.For, ast.While, ast.FunctionDef, ast.Lambda, ast.ListComp)):
                 bad(node, f"the iterator {nm} is used inside a loop")
             p = parents[p]
+
+    def check_unshared_local(self, node, nm):
+        """nm is a local list / bytearray that is changed in place (append ...): the translation treats it as a VALUE that
+        is rebound, which is what Python does only as long as no second reference to the object exists.  Refused: nm
+        is a parameter; `y = nm` (also inside a display, a conditional expression, `:=`); nm stored into an attribute,
+        an item or a container (`self.x = nm`, `d[k] = nm`, `ys.append(nm)`), passed to a method of another object,
+        yielded, or captured by a lambda / nested function / comprehension that outlives the statement."""
+        fn = self.fn
+        if fn.fd is None:
+            bad(node, f"in-place update of {nm}: no function body to check for sharing")
+        if nm in [a.arg for a in fn.fd.args.args] + ([fn.fd.args.vararg.arg] if fn.fd.args.vararg else []):
+            bad(node, f"in-place update of the parameter {nm}")
+        parents = {}
+        for p in ast.walk(fn.fd):
+            for c in ast.iter_child_nodes(p):
+                parents[c] = p
+        for x in ast.walk(fn.fd):
+            if not (isinstance(x, ast.Name) and x.id == nm and isinstance(x.ctx, ast.Load)):
+                continue
+            p = parents.get(x)
+            # the value flows on through displays and conditional expressions
+            top = x
+            while isinstance(p, (ast.Tuple, ast.List, ast.Set, ast.Dict, ast.IfExp, ast.Starred, ast.BoolOp)) \
+                    and not (isinstance(p, ast.IfExp) and p.test is top):
+                top, p = p, parents.get(p)
+            if isinstance(p, (ast.Assign, ast.AnnAssign, ast.NamedExpr, ast.AugAssign)) and getattr(p, "value", None) is top:
+                bad(node, f"{nm} is changed in place and also given a second name or stored (line {x.lineno})")
+            if isinstance(p, (ast.Yield, ast.YieldFrom)):
+                bad(node, f"{nm} is changed in place and also yielded")
+            if isinstance(p, ast.keyword):
+                bad(node, f"{nm} is changed in place and also passed as a keyword argument")
+            if isinstance(p, ast.Call) and top in p.args:
+                f = p.func
+                if isinstance(f, ast.Attribute) and not (isinstance(f.value, ast.Constant) and f.attr == "join"):
+                    # a method of another object may keep it (ys.append(nm), self.table.add(nm, ...)); b"".join(nm) does not
+                    bad(node, f"{nm} is changed in place and also handed to the method {f.attr} (line {x.lineno})")
+            q = x
+            while q in parents:
+                q = parents[q]
+                if isinstance(q, (ast.Lambda, ast.FunctionDef, ast.GeneratorExp)) and q is not fn.fd:
+                    bad(node, f"{nm} is changed in place and also captured by a nested scope")
 
     def check_private_bytearray(self, node, nm):
         """nm is a local bytearray with no other reference to it: every assignment to it is the result of
